@@ -83,3 +83,61 @@ claim("C19",
       "trace compared inside Coq.",
       "Coq proof over the Exec model + end-to-end differential run through the real CLI and local adapter",
       "DESIGN.md 5/C19, 10", "PARTIAL: that Popen waits for the child and reports its code is OS/CPython behaviour, exercised not modelled.")
+claim("C02",
+      "Coq theorems on the regenerated polling model for all graphs, configs and histories (wf graph, valid reports, attempts >= 1): the "
+      "trace monitor family 2 (codes 2, 21-24) is silent on the model's own trace (C02_monitor), no failed/cancelled node or descendant is "
+      "ever submitted again (same poll and later), the whole sub-tree is swept FAILED/CANCELLED in the same poll and stays so, every swept "
+      "node lies under a node with an own unsuccessful report / failed submission / post-cancel pop (nothing else is swept), and at a "
+      "FINISHED/FAILURE verdict every other step completed. Tie: T-code regeneration, bfs_subtree completeness, in-Coq differential "
+      "correspondence (exhaustive tiny scope + random histories, partly through Conductor.monitor_study) and the same monitor on the "
+      "implementation's trace.",
+      "Coq proof (extended inductive invariant over macro-steps of a poll; monitor proved silent on the model) + in-Coq differential correspondence",
+      "DESIGN.md 5/C02, 10")
+claim("C06",
+      "Coq theorems on the regenerated polling model: monitor family 6 (61, 62, 63, 66, 67) silent on every model trace (C06_monitor); a "
+      "Restart submission only for steps with a restart command, only in a poll that delivered TIMEDOUT with query OK, never the main "
+      "script; restarts <= limit at every poll boundary; the restart column equals the number of polls with a Restart submission; "
+      "TIMEDOUT without restart command => TIMEDOUT/failed, exhausted budget => FAILED, descendants swept; plus (Props/C08) the restart "
+      "limit is attached iff a restart command exists. Tie: T-code (mark_restart, TIMEDOUT branch, retry loop + ExecGen2 equality), "
+      "timeout-heavy histories against the real ExecutionGraph, Study.stage() for the limit.",
+      "Coq proof (restart accounting invariant; monitor proved silent on the model) + in-Coq differential correspondence",
+      "DESIGN.md 5/C06, 10")
+claim("C09",
+      "Coq theorems for all texts and token tables: the general law that sequential Python str.replace passes in ANY order equal the "
+      "simultaneous substitution whenever the result contains no token (seq_eq_sim, plus the sub-loop form used by the workspace pass), its "
+      "consequences (no defined token survives, other characters untouched, order irrelevant), the parameter/environment/workspace tables "
+      "map $(K), $(K.label), $(K.name), $(p.workspace) (same combination / funnel root), $(WORKSPACE) to the right values and only those, "
+      "apply_function reaches every string at every depth, script text = rec o ws o param o env; two known findings (K4a, K4b) outside the "
+      "hygiene hypothesis are refuted by witnesses. Tie: scripts written through the real adapters, str.replace orders, re.findall(WSREGEX) "
+      "and apply_function compared with the model inside Coq; the monitor C09_ok on the implementation's scripts is the proved predicate.",
+      "Coq proof (string rewriting: sequential = simultaneous substitution) + in-Coq differential correspondence on real scripts",
+      "DESIGN.md 5/C09, 10")
+claim("C13",
+      "Coq theorems over ALL JSON documents and the regenerated schema: verification + consumers + study construction never end in an "
+      "internal error (C13_never_internal), accepted => every consumer is total (keys present with the needed types), the built step list "
+      "equals the document's, every schema priority string is understood with a Flux urgency, each mutation class of the property "
+      "(deleted required key, empty string, unknown key, wrong type, duplicate variable/dependency/step, value/label length mismatch, "
+      "undefined or self dependency) is rejected with a diagnostic, monitor proved of the model. C13_stageable is partial (composition with "
+      "the Expand model not proved; accepted documents are staged for real by the harness). One known finding (duplicate YAML keys). Tie: "
+      "schema and from_str regenerated; the schema interpreter validated against jsonschema; exhaustive single mutations + generated "
+      "documents through the real front end compared with the model inside Coq.",
+      "Coq proof (schema-interpreter soundness, totality of consumers) + in-Coq differential correspondence with the real loader/validator",
+      "DESIGN.md 5/C13, 10", "C13_stageable is partial.")
+claim("C17",
+      "Coq theorems on the regenerated polling model for all graphs/configs/histories with dry_run on: the only adapter calls are script "
+      "generations and cancel_jobs([]) (monitor family 17 silent on every dry trace: prop_ok 17 proved), nothing is ever in progress, every "
+      "poll completes at least one more instance, the run ends FINISHED with every row DRYRUN within length+1 polls, each node's script is "
+      "generated exactly once and the generation sequence equals that of the real run under an ideal scheduler (lock-step simulation). "
+      "Tie: T-code, dry and real histories side by side against the real ExecutionGraph, and real `maestro run --dry -fg` over "
+      "{--hashws}x{--usetmp}x throttle x attempts compared with real runs (no submit/check/execute; same script bytes; exit 0).",
+      "Coq proof (dry-run invariant + simulation; monitor proved silent on the model) + in-Coq correspondence + end-to-end dry runs through the CLI",
+      "DESIGN.md 5/C17, 10")
+claim("C20",
+      "Coq theorems on the regenerated polling model: a query ERROR aborts with records, sets, queue and dependencies untouched and no "
+      "submission (and abort happens only then), NOJOBS = the poll with an empty report list, any subset of quiet entries (missing, None, "
+      "non-terminal non-RUNNING) can be erased without changing the poll, a tracked step whose entries are quiet keeps its record and "
+      "stays in progress, a RUNNING report changes only the state; run-level corollaries; monitor codes 201-203 proved silent on every "
+      "model trace (205, 207, 40 are checked at run time on both traces). Tie: T-code (ERROR test before any mutation, OK-only dispatch), "
+      "exhaustive fault injection (every query code and a cancel at every poll, absent/None reports) + random faulty histories.",
+      "Coq proof (frame/erasure lemmas of the dispatch fold) + in-Coq differential correspondence with fault injection",
+      "DESIGN.md 5/C20, 10", "Monitor codes 205/207/40 of the family are run-time checked only.")
